@@ -744,7 +744,10 @@ func (s *Server) notifySessions(n string) {
 	// shared session channel without opt-in; collect them while we hold the lock.
 	var legacySessions []*ServerSession
 	for _, sess := range s.sessions {
-		if sess.InitializeParams().isNil() || sess.InitializeParams().ProtocolVersion < protocolVersion20260728 {
+		// A session that has not told the server its protocol version yet (no
+		// initialize, no 2026-07-28 request metadata) is not known to be legacy:
+		// it is not notified, rather than notified as if it were.
+		if ip := sess.InitializeParams(); !ip.isNil() && ip.ProtocolVersion < protocolVersion20260728 {
 			legacySessions = append(legacySessions, sess)
 		}
 	}
